@@ -23,10 +23,8 @@ def _uniqify_labels(arr, labels: list[str]) -> np.ndarray:
     unique_labels = list(set(labels))
     mapping = np.array([-1] + [unique_labels.index(label) for label in labels])
 
-    palette = np.arange(len(labels), dtype=int)
-
-    index = np.digitize(arr, palette, right=True)
-    return mapping[index]
+    # mapping[0] is 'no site' (-1), mapping[k + 1] the label of site k
+    return mapping[np.asarray(arr) + 1]
 
 
 def _get_states(labels: list[str]) -> dict[int, str]:
